@@ -127,6 +127,11 @@ def h2_view(data: bytes) -> Dict[str, Any]:
             view = ws_view(body)
             if not view["ws_err"]:
                 body = view  # a WebSocket carried on this stream
+        if s.rst is not None and not s.end_stream:
+            # the server aborted this response: how much of what the application had handed
+            # over was already on the wire is up to the scheduler (the send task and the
+            # application's exit share an instant); C05 judges the prefix on each worker
+            body = "aborted"
         streams[sid] = (blocks, body, s.end_stream, s.rst)
     return {"streams": streams, "goaway": acct.goaway, "error": acct.error,
             "settings": acct.settings}
@@ -139,6 +144,7 @@ def src_c06(case: Dict[str, Any]) -> Tuple[dict, dict, Any]:
     cfg = dict(case["cfg"])
     cfg["keep_alive_timeout"] = T_BIG
     programs = {f"/r{i}": c06.app_program(i, r) for i, r in enumerate(case["requests"])}
+    programs["/tail"] = c06.TAIL_PROGRAM  # as in C06: the aborted request's application waits
 
     async def sc(env: Any) -> Any:
         return await c06.scenario(env, case)
@@ -306,7 +312,7 @@ def case_strategy(draw: Any, source: str) -> Dict[str, Any]:
         if inner["event"] == "request_at_expiry":
             inner["event"] = "keepalive_expiry"
         inner["race"] = None
-        if inner["when"] == inner["apps"][0]["delay"] and inner["when"] > 0:
+        if any(inner["when"] == a["delay"] for a in inner["apps"]):
             inner["when"] = inner["when"] + 0.05
     elif source == "state":
         inner = {"steps": draw(st.lists(st.tuples(
